@@ -255,11 +255,14 @@ class Gen:
             return "[" + self.args(d) + "]"
         if x < 0.88:
             k = r.choice(["k", "'long literal key'", "[" + self.prim(d + 1) + "]"])
-            return "({ %s: %s, %s })" % (k, self.assign_expr(d + 1), r.choice(["b", "m() { return %s }" % self.expr(d + 1), "...o"]))
+            return "({ %s: %s, %s })" % (k, self.assign_expr(d + 1), r.choice([
+                "b", "m() { %sreturn %s }" % (self.directives(), self.expr(d + 1)), "...o",
+                "get g() { %sreturn %s }" % (self.directives(), self.expr(d + 1)),
+                "set g(x) { %s%s }" % (self.directives(), self.expr(d + 1))]))
         if x < 0.92:
             return self.arrow(d)
         if x < 0.95:
-            return "function (%s) { %s }" % (self.params(d), self.stmts(d + 1, 2))
+            return "function (%s) { %s%s }" % (self.params(d), self.directives(), self.stmts(d + 1, 2))
         if x < 0.975 and self.in_async:
             return "(await %s)" % self.prim(d + 1)
         if x < 0.99 and self.in_gen:
@@ -274,7 +277,7 @@ class Gen:
             if body.lstrip().startswith("{"):
                 body = "(" + body + ")"
             return "((%s) => %s)" % (ps, body)
-        return "((%s) => { %s })" % (ps, self.stmts(d + 1, 2))
+        return "((%s) => { %s%s })" % (ps, self.directives() if "=" not in ps and "{" not in ps and "..." not in ps else "", self.stmts(d + 1, 2))
 
     def unary(self, d):
         r = self.r
@@ -435,11 +438,11 @@ class Gen:
             elif x < 0.7:
                 members.append("static { %s }" % self.stmts(d + 1, 2))
             elif x < 0.8:
-                members.append("get g%d() { %s }" % (r.randint(1, 3), self.stmts(d + 1, 1)))
+                members.append("get g%d() { %s%s }" % (r.randint(1, 3), self.directives(), self.stmts(d + 1, 1)))
             elif x < 0.9:
                 members.append("[%s]() { %s }" % (self.prim(d + 1), self.stmts(d + 1, 1)))
             else:
-                members.append("constructor(%s) { %s }" % (self.params(d), self.stmts(d + 1, 2)))
+                members.append("constructor(%s) { %s%s }" % (self.params(d), self.directives(), self.stmts(d + 1, 2)))
         # at most one constructor
         seen = False
         out = []
@@ -485,6 +488,14 @@ SEED_OPS = [
     ("computed", "a[trim](b)"), ("unlisted", "a.foo(b)"), ("spread_arg", "a.concat(...b, c)"),
     ("nested", "a.trim() + `${b.concat(c)}`"), ("litsum", "'x' + 'y' + a"), ("litonly", "'x' + 'y'"),
     ("delete", "delete a.trim().x"), ("new_recv", "new K().trim()"), ("this_recv", "this.trim()"),
+    ("spread_call", "a.concat(...f(), c)"), ("spread_array", "a.concat(...[b, c])"), ("spread_new", "a.concat(...new K())"),
+    ("spread_member", "a.concat(...o.x, ...b)"), ("apply_extra_args", "String.prototype.concat.apply(a, [b], g())"),
+    ("apply_nested_array", "String.prototype.concat.apply(a, [[b, c], d])"), ("apply_hole", "String.prototype.concat.apply(a, [b, , c])"),
+    ("apply_spread_elem", "String.prototype.concat.apply(a, [b, ...c])"), ("call_extra", "String.prototype.trim.call(a, b, f())"),
+    ("path_call_root", "f().substring.call(g(), 1)"), ("static_path", "o.x.substring.call(b, 1)"),
+    ("seq_in_tpl", "`${a, b}`"), ("pluseq_litsum", "a += 1 + 2"), ("pluseq_compound", "o.x.y += b"),
+    ("unary_operand", "a + -b"), ("cond_operand", "f() + (c ? 'k' : g() + h())"), ("regex_arg", "a.replace(/x/g, b)"),
+    ("lit_spread", "a.concat(...'xy')"), ("opt_in_arg", "a?.trim(b?.trim())"), ("opt_callee", "f?.(a?.trim())"),
 ]
 
 CONTEXTS = [
@@ -520,6 +531,19 @@ CONTEXTS = [
     ("strict_fn", "function m() { 'use strict'; return %s; }"), ("two_directives", "function m() { 'other'; 'use strict'; return %s; }"),
     ("module", "import z from 'm'; export function m() { return %s; }"),
     ("nested_blocks", "function m() { { { v = %s; } } }"), ("paren", "function m() { v = ((%s)); }"),
+    ("curried_arrow", "function m() { return x => y => %s; }"), ("arrow_returning_fn", "function m() { return x => function () { return %s; }; }"),
+    ("getter_directive", "const o2 = { get g() { 'use strict'; return %s; } };"),
+    ("setter_directive", "const o2 = { set g(x) { 'other'; 'use strict'; v = %s; } };"),
+    ("obj_method_directive", "const o2 = { m() { \"use strict\"; return %s; } };"),
+    ("class_method_directive", "class C { m() { 'use strict'; 'other'; return %s; } }"),
+    ("ctor_directive", "class C { constructor() { 'other'; 'use strict'; this.v = %s; } }"),
+    ("arrow_block_directive", "const fn = () => { 'use strict'; return %s; };"),
+    ("fn_expr_directive", "const fn = function () { 'a'; 'b'; 'use strict'; return %s; };"),
+    ("class_getter_directive", "class C { get g() { 'use strict'; return %s; } static set s(x) { 'use strict'; v = %s; } }"),
+    ("program_directives", "'other'; 'use strict'; function m() { return %s; }"),
+    ("module_directive", "'use strict'; import z from 'm'; export function m() { return %s; }"),
+    ("generator_directive", "function* m() { 'use strict'; yield %s; }"),
+    ("async_arrow_directive", "const fn = async () => { 'use strict'; await %s; };"),
 ]
 
 
@@ -528,5 +552,5 @@ def systematic():
     out = []
     for cn, ctx in CONTEXTS:
         for on, op in SEED_OPS:
-            out.append(("%s/%s" % (cn, on), ctx % op))
+            out.append(("%s/%s" % (cn, on), ctx.replace("%s", op)))
     return out
